@@ -57,8 +57,9 @@ class World:
             name = f"{name}#{i}"
         c = {"sem": threading.Semaphore(0), "state": "parked", "ready": None, "deadline": None, "wake_times": None,
              "desc": "start", "result": True, "done": False}
-        self.ctl[name] = c
-        self.order.append(name)
+        with self.cv:            # the scheduler iterates over ctl while holding cv
+            self.ctl[name] = c
+            self.order.append(name)
 
         def body():
             self.ident[threading.get_ident()] = name
@@ -178,7 +179,39 @@ class World:
                     return
                 w.block(lambda: not self.is_alive(), None if timeout is None else w.now + timeout, desc="join")
 
-        return types.SimpleNamespace(Event=VEvent, Thread=VThread, Lock=threading.Lock, RLock=threading.RLock,
+        class VLock:
+            """a lock whose contention is a blocking point of the simulation (two managed threads may contend for the
+            frame lock while one of them is parked in recv)"""
+
+            def __init__(self):
+                self.owner = None
+
+            def acquire(self, blocking=True, timeout=-1):
+                me = w.me()
+                if self.owner is not None and self.owner != me:
+                    if not blocking:
+                        return False
+                    w.block(lambda: self.owner is None, None if timeout is None or timeout < 0 else w.now + timeout, desc="lock")
+                    if self.owner is not None:
+                        return False
+                self.owner = me if me is not None else "unmanaged"
+                return True
+
+            def release(self):
+                self.owner = None
+
+            def locked(self):
+                return self.owner is not None
+
+            def __enter__(self):
+                self.acquire()
+                return self
+
+            def __exit__(self, *a):
+                self.release()
+
+        w.VLock = VLock
+        return types.SimpleNamespace(Event=VEvent, Thread=VThread, Lock=VLock, RLock=threading.RLock,
                                      current_thread=threading.current_thread, get_ident=threading.get_ident)
 
     def selectors_module(self):
@@ -337,10 +370,11 @@ class Patched:
         self.saved = []
 
     def __enter__(self):
-        from websocket import _app, _dispatcher, _core, _socket
+        from websocket import _app, _dispatcher, _core, _socket, _abnf
         tm, th, sel = self.w.time_module(), self.w.threading_module(), self.w.selectors_module()
         for mod, attr, val in ((_app, "time", tm), (_app, "threading", th), (_dispatcher, "time", tm),
-                               (_dispatcher, "selectors", sel), (_core, "time", tm), (_socket, "selectors", sel)):
+                               (_dispatcher, "selectors", sel), (_core, "time", tm), (_socket, "selectors", sel),
+                               (_core, "threading", th), (_abnf, "Lock", th.Lock)):
             self.saved.append((mod, attr, getattr(mod, attr)))
             setattr(mod, attr, val)
         return self
